@@ -385,9 +385,28 @@ class Addr(str):
     pass
 
 
+class Elem(str):
+    """C.e[IDX]: element of a vector model (attributes cont = pointer to the container, cname, idx)"""
+    pass
+
+
+class NestedElem(str):
+    """element of a container that is itself an element of a container: (ROW)->e[IDX].  CBMC 6.11 mis-handles a POINTER
+    base + const + sym*stride whose constant part is the offset of the first element of an inner array (it indexes row 0's
+    inner array with the symbolic remainder: reads/writes through it are arbitrary — spurious failures, see DESIGN §0).
+    When the address of such an element is taken, the row pointer is formed by NAME_at(), a case split over the constant
+    row addresses, which CBMC dereferences precisely."""
+    pass
+
+
 def addr(lv):
     if isinstance(lv, Deref):
         return lv.ptr
+    if isinstance(lv, NestedElem) and lv.outer is not None:
+        o = lv.outer
+        a = Addr('(&%s_at(%s, %s_chk(%s, %s))->e[%s])' % (o.cname, o.cont, o.cname, o.cont, o.idx, lv.idx))
+        a.lv = lv
+        return a
     a = Addr('(&%s)' % lv)
     a.lv = lv
     return a
@@ -1417,6 +1436,10 @@ class FuncEmitter:
         if sm is not None and sm.is_iter:
             return e      # iterator base-class conversions are identities on the pointer model
         is_ptr = st.kind == 'ptr'
+        if is_ptr and st.inner is not None and st.inner.kind == 'name':
+            dq = self.em.resolve_name(st.inner.name, self.scope)
+            if dq in self.em.p.record:
+                self.em.need_record(dq)   # the base is reached through a member: the derived layout is needed
         for b in path:
             bq = self.em.resolve_name(b, self.scope)
             fld = 'base_' + self.em.rec_cname(bq).split('_')[-1]
